@@ -193,3 +193,241 @@ theorem pass_step (w h bpp : Nat) (hf : Bool) (hb : 1 ≤ bpp) (p : Nat)
     simp only [Option.map_some, iterPass, he, Bool.false_eq_true, if_false, hk, iterLen]
 
 end OxiModel
+
+namespace OxiModel
+open Spec
+
+theorem scanNext_skip_congr (w h bpp : Nat) (hf : Bool) (a b : Nat × Nat) (left : Nat)
+    (hh : skipPasses w h a = skipPasses w h b) :
+    scanNext w h bpp hf ⟨some a, left⟩ = scanNext w h bpp hf ⟨some b, left⟩ := by
+  simp only [scanNext, hh]
+
+/-- all seven passes: from the entry state of pass `p` the iterator produces the lines of passes `p..7` -/
+theorem iter_from_pass (w h bpp : Nat) (hf : Bool) (hw : 1 ≤ w) (hh : 1 ≤ h) (hb : 1 ≤ bpp) :
+    ∀ fuel, total (iterTail w h bpp hf 7 1) ≤ fuel →
+      scanLinesAux w h bpp hf fuel ⟨some (1, 0), total (iterTail w h bpp hf 7 1)⟩ =
+        some (iterTail w h bpp hf 7 1) := by
+  -- pass 8: nothing left
+  have t8 : ∀ fuel, total ([] : List (Nat × Option Nat × Nat)) ≤ fuel →
+      scanLinesAux w h bpp hf fuel ⟨some (8, ysOf 8), total []⟩ = some [] := by
+    intro fuel _; exact scanLinesAux_done w h bpp hf fuel _
+  -- pass 7
+  have t7 := pass_step w h bpp hf hb 7 rfl rfl
+    (by simp only [ysOf, passEmpty, decide_eq_true_eq]; omega)
+    (by intro _; simp only [passPixels, pfOf]; omega)
+    (by intro _ y; simp [skipPasses])
+    (by intro _ _ h7; omega) [] t8 (by intro _ _; rfl)
+  -- pass 6
+  have t6 := pass_step w h bpp hf hb 6 rfl rfl
+    (by left; simp only [ysOf]; omega)
+    (by intro he; simp only [passEmpty, decide_eq_false_iff_not] at he; simp only [passPixels, pfOf]; split <;> omega)
+    (by intro he y; simp only [passEmpty, decide_eq_false_iff_not] at he; simp [skipPasses, he])
+    (by intro he left _
+        simp only [passEmpty, decide_eq_true_eq] at he
+        apply scanNext_skip_congr
+        simp [skipPasses, he, ysOf])
+    _ t7 (by intro h7; omega)
+  -- pass 5
+  have t5 := pass_step w h bpp hf hb 5 rfl rfl
+    (by simp only [ysOf, passEmpty, decide_eq_true_eq]; omega)
+    (by intro _; simp only [passPixels, pfOf]; split <;> omega)
+    (by intro he y; simp only [passEmpty, decide_eq_false_iff_not] at he; simp [skipPasses, he])
+    (by intro he left _
+        simp only [passEmpty, decide_eq_true_eq] at he
+        apply scanNext_skip_congr
+        simp [skipPasses, he, ysOf])
+    _ t6 (by intro h7; omega)
+  -- pass 4
+  have t4 := pass_step w h bpp hf hb 4 rfl rfl
+    (by left; simp only [ysOf]; omega)
+    (by intro he; simp only [passEmpty, decide_eq_false_iff_not] at he; simp only [passPixels, pfOf]; split <;> omega)
+    (by intro he y; simp only [passEmpty, decide_eq_false_iff_not] at he; simp [skipPasses, he])
+    (by intro he left _
+        simp only [passEmpty, decide_eq_true_eq] at he
+        apply scanNext_skip_congr
+        simp [skipPasses, he, ysOf])
+    _ t5 (by intro h7; omega)
+  -- pass 3
+  have t3 := pass_step w h bpp hf hb 3 rfl rfl
+    (by simp only [ysOf, passEmpty, decide_eq_true_eq]; omega)
+    (by intro _; simp only [passPixels, pfOf]; split <;> omega)
+    (by intro he y; simp only [passEmpty, decide_eq_false_iff_not] at he; simp [skipPasses, he])
+    (by intro he left _
+        simp only [passEmpty, decide_eq_true_eq] at he
+        apply scanNext_skip_congr
+        simp [skipPasses, he, ysOf])
+    _ t4 (by intro h7; omega)
+  -- pass 2
+  have t2 := pass_step w h bpp hf hb 2 rfl rfl
+    (by left; simp only [ysOf]; omega)
+    (by intro he; simp only [passEmpty, decide_eq_false_iff_not] at he; simp only [passPixels, pfOf]; split <;> omega)
+    (by intro he y; simp only [passEmpty, decide_eq_false_iff_not] at he; simp [skipPasses, he])
+    (by intro he left _
+        simp only [passEmpty, decide_eq_true_eq] at he
+        apply scanNext_skip_congr
+        simp [skipPasses, he, ysOf])
+    _ t3 (by intro h7; omega)
+  -- pass 1
+  have t1 := pass_step w h bpp hf hb 1 rfl rfl
+    (by left; simp only [ysOf]; omega)
+    (by intro _; simp only [passPixels, pfOf]; split <;> omega)
+    (by intro _ y; simp [skipPasses])
+    (by intro he; simp [passEmpty] at he)
+    _ t2 (by intro h7; omega)
+  intro fuel hfuel
+  have := t1 fuel (by simpa [iterTail] using hfuel)
+  simpa [iterTail, ysOf] using this
+
+end OxiModel
+
+namespace OxiModel
+open Spec
+
+/-- the lines the specification prescribes for pass `p` (1-based) -/
+def specPass (w h bpp : Nat) (hf : Bool) (p : Nat) : List (Nat × Option Nat × Nat) :=
+  let g := adam7.getD (p - 1) ⟨0, 0, 1, 1⟩
+  let d := passDims g w h
+  if d.1 = 0 then [] else List.replicate d.2 (rowBytes d.1 bpp + (if hf then 1 else 0), some p, d.1)
+
+theorem lineLens_interlaced (w h bpp : Nat) (hf : Bool) :
+    Spec.lineLens w h bpp true hf =
+      specPass w h bpp hf 1 ++ specPass w h bpp hf 2 ++ specPass w h bpp hf 3 ++ specPass w h bpp hf 4 ++
+      specPass w h bpp hf 5 ++ specPass w h bpp hf 6 ++ specPass w h bpp hf 7 := by
+  have hr : List.range 7 = [0, 1, 2, 3, 4, 5, 6] := by decide
+  simp only [Spec.lineLens, hr, Bool.not_true, Bool.false_eq_true, if_false, List.flatMap_cons,
+    List.flatMap_nil, List.append_nil, specPass, List.append_assoc]
+
+theorem pp1 (w : Nat) : passPixels w 1 8 = (w + 8 - 1 - 0) / 8 := by simp only [passPixels]; split <;> omega
+theorem pp2 (w : Nat) : passPixels w 2 8 = (w + 8 - 1 - 4) / 8 := by simp only [passPixels]; split <;> omega
+theorem pp3 (w : Nat) : passPixels w 3 4 = (w + 4 - 1 - 0) / 4 := by simp only [passPixels]; split <;> omega
+theorem pp4 (w : Nat) : passPixels w 4 4 = (w + 4 - 1 - 2) / 4 := by simp only [passPixels]; split <;> omega
+theorem pp5 (w : Nat) : passPixels w 5 2 = (w + 2 - 1 - 0) / 2 := by simp only [passPixels]; split <;> omega
+theorem pp6 (w : Nat) : passPixels w 6 2 = (w + 2 - 1 - 1) / 2 := by simp only [passPixels]; split <;> omega
+theorem pp7 (w : Nat) : passPixels w 7 1 = (w + 1 - 1 - 0) / 1 := by simp [passPixels]
+
+/-- pass by pass, the iterator's lines are the specification's -/
+theorem iterPass_eq_spec (w h bpp : Nat) (hf : Bool) (hw : 1 ≤ w) (hh : 1 ≤ h) :
+    ∀ p ∈ [1, 2, 3, 4, 5, 6, 7], iterPass w h bpp hf p = specPass w h bpp hf p := by
+  intro p hp
+  simp only [List.mem_cons, List.mem_nil_iff, or_false] at hp
+  rcases hp with rfl | rfl | rfl | rfl | rfl | rfl | rfl
+  · -- pass 1
+    simp only [iterPass, passEmpty, Bool.false_eq_true, if_false, iterRows, iterLen, pfOf, dyOf, ysOf, pp1,
+      specPass, adam7, List.getD_cons_zero, passDims, passCount, rowBytes, Nat.sub_self]
+    have : ¬ ((w + 8 - 1 - 0) / 8 = 0) := by omega
+    simp only [this, if_false]
+    all_goals (try (congr 1 <;> omega))
+  · -- pass 2
+    simp only [iterPass, passEmpty, iterRows, iterLen, pfOf, dyOf, ysOf, pp2, specPass, adam7,
+      List.getD_cons_succ, List.getD_cons_zero, passDims, passCount, rowBytes, decide_eq_true_eq]
+    by_cases hc : w < 5
+    · have : (w + 8 - 1 - 4) / 8 = 0 := by omega
+      simp [hc, this] <;> omega
+    · have : ¬ ((w + 8 - 1 - 4) / 8 = 0) := by omega
+      simp only [hc, this, if_false]
+      all_goals (try (congr 1 <;> omega))
+  · -- pass 3
+    simp only [iterPass, passEmpty, iterRows, iterLen, pfOf, dyOf, ysOf, pp3, specPass, adam7,
+      List.getD_cons_succ, List.getD_cons_zero, passDims, passCount, rowBytes, decide_eq_true_eq]
+    have hpw : ¬ ((w + 4 - 1 - 0) / 4 = 0) := by omega
+    by_cases hc : h < 5
+    · have : (h + 8 - 1 - 4) / 8 = 0 := by omega
+      simp [hc, this, hpw] <;> omega
+    · simp only [hc, hpw, if_false]
+      all_goals (try (congr 1 <;> omega))
+  · -- pass 4
+    simp only [iterPass, passEmpty, iterRows, iterLen, pfOf, dyOf, ysOf, pp4, specPass, adam7,
+      List.getD_cons_succ, List.getD_cons_zero, passDims, passCount, rowBytes, decide_eq_true_eq]
+    by_cases hc : w < 3
+    · have : (w + 4 - 1 - 2) / 4 = 0 := by omega
+      simp [hc, this] <;> omega
+    · have : ¬ ((w + 4 - 1 - 2) / 4 = 0) := by omega
+      simp only [hc, this, if_false]
+      all_goals (try (congr 1 <;> omega))
+  · -- pass 5
+    simp only [iterPass, passEmpty, iterRows, iterLen, pfOf, dyOf, ysOf, pp5, specPass, adam7,
+      List.getD_cons_succ, List.getD_cons_zero, passDims, passCount, rowBytes, decide_eq_true_eq]
+    have hpw : ¬ ((w + 2 - 1 - 0) / 2 = 0) := by omega
+    by_cases hc : h < 3
+    · have : (h + 4 - 1 - 2) / 4 = 0 := by omega
+      simp [hc, this, hpw] <;> omega
+    · simp only [hc, hpw, if_false]
+      all_goals (try (congr 1 <;> omega))
+  · -- pass 6
+    simp only [iterPass, passEmpty, iterRows, iterLen, pfOf, dyOf, ysOf, pp6, specPass, adam7,
+      List.getD_cons_succ, List.getD_cons_zero, passDims, passCount, rowBytes, decide_eq_true_eq]
+    by_cases hc : w = 1
+    · have : (w + 2 - 1 - 1) / 2 = 0 := by omega
+      simp [hc] <;> omega
+    · have : ¬ ((w + 2 - 1 - 1) / 2 = 0) := by omega
+      simp only [hc, this, if_false]
+      all_goals (try (congr 1 <;> omega))
+  · -- pass 7
+    simp only [iterPass, passEmpty, iterRows, iterLen, pfOf, dyOf, ysOf, pp7, specPass, adam7,
+      List.getD_cons_succ, List.getD_cons_zero, passDims, passCount, rowBytes, decide_eq_true_eq]
+    have hpw : ¬ ((w + 1 - 1 - 0) / 1 = 0) := by simp; omega
+    by_cases hc : h < 2
+    · have : (h + 2 - 1 - 1) / 2 = 0 := by omega
+      simp [hc, this, hpw] <;> omega
+    · simp only [hc, hpw, if_false]
+      all_goals (try (congr 1 <;> omega))
+
+theorem iterTail_eq_spec (w h bpp : Nat) (hf : Bool) (hw : 1 ≤ w) (hh : 1 ≤ h) :
+    iterTail w h bpp hf 7 1 = Spec.lineLens w h bpp true hf := by
+  have hp := iterPass_eq_spec w h bpp hf hw hh
+  rw [lineLens_interlaced]
+  simp only [iterTail, List.append_nil, List.append_assoc]
+  rw [hp 1 (by decide), hp 2 (by decide), hp 3 (by decide), hp 4 (by decide), hp 5 (by decide),
+      hp 6 (by decide), hp 7 (by decide)]
+
+/-- **The scan-line iterator is the specification** (interlaced): with the right amount of data it
+    yields, pass by pass, exactly the specification's rows — empty passes omitted — for every
+    width, height ≥ 1 and pixel size ≥ 1, with or without filter bytes. -/
+theorem scanLines_interlaced_is_spec (w h bpp : Nat) (hf : Bool) (hw : 1 ≤ w) (hh : 1 ≤ h) (hb : 1 ≤ bpp) :
+    scanLines w h bpp true hf (Spec.dataSize w h bpp true hf) = some (Spec.lineLens w h bpp true hf) := by
+  have he := iterTail_eq_spec w h bpp hf hw hh
+  have ht : Spec.dataSize w h bpp true hf = total (iterTail w h bpp hf 7 1) := by
+    rw [he]; rfl
+  simp only [scanLines, scanInit, if_true]
+  rw [ht]
+  have := iter_from_pass w h bpp hf hw hh hb (total (iterTail w h bpp hf 7 1)) (Nat.le_refl _)
+  rw [this, he]
+
+/-- non-interlaced: `h` rows of the full width -/
+theorem scanLines_progressive_is_spec (w h bpp : Nat) (hf : Bool) (hw : 1 ≤ w) (hb : 1 ≤ bpp) :
+    scanLines w h bpp false hf (Spec.dataSize w h bpp false hf) = some (Spec.lineLens w h bpp false hf) := by
+  have hlen : 0 < (w * bpp + 7) / 8 + (if hf then 1 else 0) := by
+    have : 1 ≤ w * bpp := Nat.mul_pos hw hb
+    have : 1 ≤ (w * bpp + 7) / 8 := (Nat.le_div_iff_mul_le (by decide)).mpr (by omega)
+    omega
+  rw [dataSize_progressive]
+  simp only [scanLines, scanInit, Bool.false_eq_true, if_false, Spec.lineLens, Bool.not_false, if_true, rowBytes]
+  -- induction on the number of rows
+  have key : ∀ (n fuel : Nat), n * ((w * bpp + 7) / 8 + (if hf then 1 else 0)) ≤ fuel →
+      scanLinesAux w h bpp hf fuel ⟨none, n * ((w * bpp + 7) / 8 + (if hf then 1 else 0))⟩ =
+        some (List.replicate n ((w * bpp + 7) / 8 + (if hf then 1 else 0), none, w)) := by
+    intro n
+    induction n with
+    | zero => intro fuel _; simp [scanLinesAux_done]
+    | succ n ih =>
+      intro fuel hfuel
+      have hmul : (n + 1) * ((w * bpp + 7) / 8 + (if hf then 1 else 0)) =
+          n * ((w * bpp + 7) / 8 + (if hf then 1 else 0)) + ((w * bpp + 7) / 8 + (if hf then 1 else 0)) := by
+        rw [Nat.add_mul, Nat.one_mul]
+      cases fuel with
+      | zero => omega
+      | succ f =>
+        simp only [scanLinesAux, scanNext]
+        have h0 : ¬ ((n + 1) * ((w * bpp + 7) / 8 + (if hf then 1 else 0)) = 0) := by rw [hmul]; omega
+        have hge : ¬ ((n + 1) * ((w * bpp + 7) / 8 + (if hf then 1 else 0)) < (w * bpp + 7) / 8 + (if hf then 1 else 0)) := by
+          rw [hmul]; omega
+        have hl0 : ¬ ((w * bpp + 7) / 8 + (if hf then 1 else 0) = 0) := by omega
+        simp only [h0, hge, hl0, if_false]
+        have hsub : (n + 1) * ((w * bpp + 7) / 8 + (if hf then 1 else 0)) - ((w * bpp + 7) / 8 + (if hf then 1 else 0)) =
+            n * ((w * bpp + 7) / 8 + (if hf then 1 else 0)) := by rw [hmul]; omega
+        rw [hsub, ih f (by rw [hmul] at hfuel; omega)]
+        simp [List.replicate_succ]
+  have := key h (h * ((w * bpp + 7) / 8 + (if hf then 1 else 0))) (Nat.le_refl _)
+  simpa [Nat.mul_comm] using this
+
+end OxiModel
